@@ -4,6 +4,10 @@ use crate::interpreter::variant_casts::VariantCasts;
 
 pub fn run<S: InterpreterTrait>(interpreter: &mut S) -> Result<(), RuntimeError> {
     let file_name: &str = interpreter.context()[0].to_str_unchecked();
+    #[cfg(feature = "verif")]
+    if let Some(result) = crate::interpreter::verif_fs::try_remove_file(file_name) {
+        return result.map_err(RuntimeError::from);
+    }
     std::fs::remove_file(file_name).map_err(RuntimeError::from)
 }
 
